@@ -103,6 +103,10 @@ for (n, tier) in ((1, "quick"), (2, "quick"), (4, "thorough")):
     _k("s2_send_multi_mpmc_n%d" % n, MQ_S, "S", ["C01", "C02", "C03", "C05", "C06", "C09", "C12"], tier, b)
     _k("s3_recv_mpmc_n%d" % n, MQ_S, "S", ["C01", "C02", "C04", "C05", "C06", "C07", "C09"], tier, b)
 
+# S1p/S2p: a producer never claims a pinned slot
+for (nm, tier) in (("s1p_send_single_pinned_n2", "quick"), ("s2p_send_multi_pinned_n2", "quick"), ("s1p_send_single_pinned_n4", "thorough"), ("s2p_send_multi_pinned_n4", "thorough")):
+    _k(nm, MQ_S, "S", ["C04", "C12", "C06"], tier, nm[-2:].upper().replace("N", "N=") + ", 2 streams; arbitrary wf state plus one sibling pin on the slot of the next claim")
+
 # S4 view on a sole-consumer stream
 for (fl, ns) in (("bcast", ((1, "quick"), (2, "quick"), (4, "thorough"))), ("mpmc", ((1, "quick"), (2, "quick"), (4, "thorough")))):
     for (n, tier) in ns:
@@ -295,6 +299,7 @@ FUNCTIONS = [
     ("p1_", "countedindex::past"), ("p2_", "countedindex::{is_tagged, rm_tag}"), ("p4_", "countedindex::get_valid_wrap"),
     ("p5_", "CountedIndex::{new, from_usize, wrap_at, load, load_raw, load_count}"), ("p6_", "Transaction::{get, matches_previous}, CountedIndex::get_previous"),
     ("p9_", "Transaction::{commit, commit_direct, reload}"), ("p10_", "wait::{check, load_tagless}"), ("p11_", "AtomicSignal::*, LoadedSignal::*"),
+    ("s1p_", "MultiQueue::try_send_single (pinned slot)"), ("s2p_", "MultiQueue::try_send_multi (pinned slot)"),
     ("s1_", "MultiQueue::try_send_single, reload_tail_single, ReadCursor::get_max_diff"), ("s2_", "MultiQueue::try_send_multi, reload_tail_multi, ReadCursor::get_max_diff"),
     ("s3_", "MultiQueue::try_recv, Reader::load_attempt, ReadAttempt::commit_attempt"), ("s4_", "MultiQueue::try_recv_view"),
     ("s7_", "InnerSend::{try_send, handle_signals}"), ("s8_", "InnerRecv::{try_recv, recv, try_recv_view, recv_view, examine_signals}"),
@@ -331,9 +336,45 @@ def native_for(prop, tier):
     return sorted(n for n, h in NATIVE.items() if prop in h["props"] and (tier == "thorough" or h["tier"] == "quick"))
 
 
+import json as _json
+import os as _os
+import re as _re
+
+try:
+    TIMINGS = _json.load(open(_os.path.join(_os.path.dirname(_os.path.abspath(__file__)), "timings.json")))
+except Exception:  # pragma: no cover
+    TIMINGS = {}
+
+# every-change tier: only harnesses that take <= QUICK_MAX_S on the reference sweep (8 jobs, contended), chosen
+# family by family (cheapest representative of every family first) until the summed time reaches QUICK_SUM_S.
+# The check run with every change must stay well under 15 minutes on a machine slower than the reference.
+QUICK_MAX_S = 60
+QUICK_SUM_S = 420
+DEFAULT_TIME_S = 45  # harnesses without a measurement yet
+
+
+def _family(name):
+    m = _re.match(r"([a-z]+[0-9]*[a-z]?_[a-z_]*?)(?:_(?:bcast|mpmc|n[0-9]|k[0-9]|t[0-9]|b[0-9]|s[0-9]|cap|[0-9])|$)", name)
+    return m.group(1) if m else name
+
+
 def kani_for(prop, tier):
-    out = []
-    for name, h in KANI.items():
-        if prop in h["props"] and (tier == "thorough" or h["tier"] == "quick"):
-            out.append(name)
+    cands = [n for n, h in KANI.items() if prop in h["props"] and (tier == "thorough" or h["tier"] == "quick")]
+    if tier == "thorough":
+        return sorted(cands)
+    cands = [n for n in cands if TIMINGS.get(n, DEFAULT_TIME_S) <= QUICK_MAX_S]
+    fams = {}
+    for n in sorted(cands, key=lambda x: (TIMINGS.get(x, DEFAULT_TIME_S), x)):
+        fams.setdefault(_family(n), []).append(n)
+    out, total, rank = [], 0, 0
+    while True:
+        layer = [(TIMINGS.get(v[rank], DEFAULT_TIME_S), v[rank]) for v in fams.values() if len(v) > rank]
+        if not layer:
+            break
+        for tm, n in sorted(layer):
+            if total + tm > QUICK_SUM_S and out:
+                continue
+            out.append(n)
+            total += tm
+        rank += 1
     return sorted(out)
